@@ -244,7 +244,16 @@ impl Prop for C15 {
         let kind = *r.pick(&Kind::ALL);
         let n = r.urange(2, 6);
         let v6 = r.chance(1, 4);
-        let eps = conn::endpoints(r, n, v6);
+        let mut eps = conn::endpoints(r, n, v6);
+        // one IPv4 scenario in ten: a raw-IP connection whose first bytes read like an Ethernet header in front of an
+        // option-less IPv4/TCP packet when taken at Ethernet offsets - source address 8.x.69.y (bytes 12 and 14 of the
+        // packet: 0x08 as the first EtherType byte, 0x45 as version/IHL) and a destination port whose low byte is 6
+        // (byte 23: protocol TCP)
+        let raw_lookalike = !v6 && r.chance(1, 10);
+        if raw_lookalike {
+            eps[0].0 = crate::pkt::Endpoint::v4(8, *r.pick(&[0u8, 1, 8, 0x45, r.clone().u8()]), 0x45, r.u8(), 1024 + r.below(60000) as u16);
+            eps[0].1.port = 6 + 256 * r.urange(1, 200) as u16;
+        }
         // loopback captures from other platforms: every address-family word in use, in both byte orders
         let foreign = Framing::NullFamily { fam: *r.pick(&[2u8, 2, 10, 24, 28, 30]), big_endian: r.chance(1, 2) };
         let tagged = Framing::Vlan { tpid: *r.pick(&[0x8100u16, 0x8100, 0x88a8, 0x9100]), tci: r.u16() };
@@ -253,6 +262,7 @@ impl Prop for C15 {
         let mut conns = vec![];
         for (c, s) in &eps {
             let framing = if r.chance(1, 6) { *r.pick(&[Framing::Ethernet, Framing::RawIp, Framing::Null1e, Framing::NullAf, foreign, tagged, cooked]) } else { base_framing };
+            let framing = if raw_lookalike && (*c, *s) == eps[0] { Framing::RawIp } else { framing };
             let o = ConnOpts { v6, framing, max_parts: 3, gap_lo: 50_000, gap_hi: 20_000_000, tls_single_segment: kind == Kind::Unified };
             let ck = super::c07::kinds_for(kind, r);
             let mut c = conn::build(r, ck, *c, *s, &o);
